@@ -1,18 +1,92 @@
+import re
+
 from check import Prop
+
+TOKS = ["%path", "%Y", "%m", "%d", "%H", "%M", "%S", "%f", "%z", "%s"]
+GROUP = {"%path": "(.*?)", "%Y": "([0-9]{4})", "%f": "([0-9]{6})", "%s": "([0-9]{10})",
+         "%z": r"(Z|\+[0-9]{4}|-[0-9]{4})"}
+
+
+def tokenize(f):
+    out, i = [], 0
+    while i < len(f):
+        for t in TOKS:
+            if f.startswith(t, i):
+                out.append(t)
+                i += len(t)
+                break
+        else:
+            out.append(f[i])
+            i += 1
+    return out
+
+
+def degenerate(f):
+    """formats outside wf_format: a '%' starting no placeholder, %path not exactly once, >1 %z after %path"""
+    toks = tokenize(f)
+    if "%" in toks or toks.count("%path") != 1:
+        return True
+    return toks[toks.index("%path"):].count("%z") > 1
+
+
+def whole_name(f, v):
+    """independent third implementation (Python re, fullmatch) of 'v is an instance of the format'"""
+    pat = "".join(GROUP.get(t, "([0-9]{2})") if len(t) > 1 else re.escape(t) for t in tokenize(f))
+    return re.fullmatch(pat, v) is not None
 
 
 class C26(Prop):
     pid = "C26"
     check_mod = "C26"
     drivers = [dict(pkg="internal/recordstore", test="TestVerifC26")]
-    n_quick = 3000
+    n_quick = 2400
     n_thorough = 120000
     shard = 500
-    ready = False
-    manifest = dict(text="", note="", technique="")
-    rule = ""
-    trusted_base = []
-    assumptions = []
+    ready = True
+    manifest = dict(
+        text="Coq theorems over a Gallina model of recordstore.Path.Encode (the ten sequential ReplaceAll passes) and "
+             "Path.Decode (leftmost-first backtracking match of the anchored pattern the code builds: lazy (.*?) for %path, "
+             "fixed-width digit groups, Z|+dddd|-dddd; last group of a placeholder wins; time.Date / time.Unix via a proved "
+             "proleptic-Gregorian calendar): for every well-formed format, every path name without newline/'%' and every "
+             "instant the fixed-width fields can hold, Decode(Encode) returns that path and that start to the microsecond; "
+             "every recognised name is as a whole the format's literals with well-shaped fields in between (no foreign "
+             "prefix/suffix/infix). The model is tied to the code by running the real Encode/Decode on generated formats, "
+             "names, instants, zones and mutated candidate names and comparing inside Coq.",
+        note="Found and fixed: the pattern was compiled without anchors (fix 2b44fe1). Known findings kept: Decode accepts "
+             "fields Encode never writes (month 13, +0000, disagreeing duplicates); formats with several %path or a stray '%' "
+             "do not round-trip. Trusted: Coq kernel+VM, the driver, Go regexp implementing leftmost-first semantics for the "
+             "generated pattern (checked on every case), the zone offsets Go computes (shipped per case). ASCII formats only.",
+        technique="Coq proof (induction over the token list; length/last-byte argument for the lazy group; 400-year calendar "
+                  "cycle swept by vm_compute and lifted by forallb_forall) + correspondence by vm_compute")
+    rule = ("formats from a grammar over the ten placeholders and literal separators (realistic, time-before-path, random "
+            "token soup incl. regex metacharacters and stray '%', degenerate ones); names valid, look-alike (embedded "
+            "timestamps) and invalid; instants 2000-2041, boundaries (10^9, 10^10, years 999/1000/9999/10000, negative), "
+            "DST changes; fixed local zones (nice and odd offsets) and five real zones (applied offset shipped); candidates = "
+            "encodings and their suffix/prefix/infix/delete/replace/double/truncate/field mutations and random strings. "
+            "Non-trivial = recognised; distinct = distinct (input, output) descriptions")
+    trusted_base = ["Coq 8.16.1 kernel + VM (vm_compute for cases and the two calendar sweeps)",
+                    "in-package Go driver zz_verif_c26_test.go",
+                    "model Model/C26_RecPath.v hand-written, tied by correspondence (0 mismatches required)",
+                    "oracle: offset time.Date applied in a real zone (shipped per case); Go regexp = leftmost-first match",
+                    "known_class: Python re.fullmatch as independent whole-name check before a finding is accepted as known"]
+    assumptions = ["formats are ASCII (bytes >= 0x80 in a format are not modelled: regexp works on runes)",
+                   "time.Time nanoseconds are in 0..999999999",
+                   "theorems need wf_format: every '%' starts a placeholder, %path exactly once, at most one %z after %path"]
+
+    def known_class(self, case, entries):
+        d = case.get("desc", {}) or {}
+        for e in entries:
+            if e.get("class") != case.get("class"):
+                continue
+            try:
+                if e["class"] == "dec-recognised-not-reencodable" and d.get("kind") == "decode" \
+                        and whole_name(d["format"], d["candidate"]):
+                    return e
+                if e["class"] == "degenerate-format" and d.get("kind") == "roundtrip" and degenerate(d["format"]):
+                    return e
+            except Exception:
+                return None
+        return None
 
 
 PROP = C26()
